@@ -128,6 +128,14 @@ static void do_unpackbytes(int n, int dst)
 {
 	uint8_t *d = malloc(dst && n ? n : 1);   /* exactly sized destination */
 	if (dst) memset(d, 0x77, n);
+	/* dst == 2: the output array lies where the cursor stands (a record whose body follows its header in memory, the packer
+	 * covering the header only): used when the item does not fit - the array must come back zero-filled like any other */
+	long at = rf_pack_consumed(&pk);
+	if (dst == 2 && !is_big && n > 0 && at >= 0 && at + n <= asize && rf_pack_remaining(&pk) < n) {
+		memset(buf + at, 0x77, n);
+		rf_unpack_bytes(&pk, buf + at, n);
+		memcpy(d, buf + at, n);
+	} else
 	rf_unpack_bytes(&pk, dst ? d : NULL, n);
 	printf("{\"e\":\"UnpackBytes\",\"a\":[%d,\"%s\"],\"r\":", n, dst ? "data" : "null");
 	bytes_json(d, dst ? n : 0);
@@ -326,7 +334,7 @@ static void randomseq(int nexec, int nops)
 			case 1: do_packbytesv(b, drv_below(9)); break;
 			case 2: case 3: do_packint(ops16[drv_below(3)], b, 2); break;
 			case 4: case 5: do_packint(ops32[drv_below(2)], b, 4); break;
-			case 6: do_unpackbytes(drv_below(5) ? drv_below(9) : 9 + drv_below(16), drv_below(4) != 0); break;
+			case 6: do_unpackbytes(drv_below(5) ? drv_below(9) : 9 + drv_below(16), drv_below(4) ? 1 + (drv_below(3) == 0) : 0); break;
 			case 7: case 8: case 9: do_unpack(un[drv_below(5)]); break;
 			case 10: if (drv_below(2)) do_rewind(); else do_flip(); break;
 			case 11: do_unpack("UnpackU32le"); break;
@@ -356,6 +364,16 @@ int main(void)
 		else if (drv_is(&c, "Flip")) do_flip();
 		else if (drv_is(&c, "Sweep16")) sweep16(drv_arg(&c, 0));
 		else if (drv_is(&c, "Sweep32")) { drv_srand(drv_arg(&c, 0)); sweep32(drv_arg(&c, 1)); }
+		else if (drv_is(&c, "Alias")) {
+			/* output arrays that start at the cursor, after the end of what the packer covers */
+			for (int hdr = 0; hdr <= 8; hdr += (hdr < 2 ? 1 : 3))
+				for (int n = 1; n <= 9; n += 4) {
+					reset(24);
+					do_unpackbytes(hdr, 0); do_flip(); do_unpackbytes(hdr, 1); do_unpackbytes(n, 2); do_unpack("UnpackU8"); do_unpackbytes(2, 2);
+					reset(24);
+					do_unpackbytes(hdr, 1); do_flip(); do_unpackbytes(hdr + 2, 0); do_unpackbytes(n, 2); do_unpackbytes(1, 2);
+				}
+		}
 		else if (drv_is(&c, "Random")) { drv_srand(drv_arg(&c, 0)); randomseq(drv_arg(&c, 1), drv_arg(&c, 2)); }
 		else { fprintf(stderr, "pack_drv: unknown command %s\n", op); return 3; }
 	}
